@@ -24,7 +24,9 @@
 (* the skip of @testonly declarations and of _test.go files.               *)
 (* L1: Exact.  Deviations: DedupByName (reported keyed by the bare type    *)
 (* name), MatchByName (calls matched by identifier text), NoUnalias (a use *)
-(* spelled through a type alias is invisible).                             *)
+(* spelled through a type alias is invisible), StopAtReportedCall (the     *)
+(* arguments of a reported call are not visited), SkipMethodNamedLikeFunc  *)
+(* (a method named like a @testonly function is taken for @testonly).     *)
 (***************************************************************************)
 EXTENDS Integers, Sequences, FiniteSets, TLC, Json
 
@@ -34,10 +36,11 @@ VARIABLES prog, fi, ci, ph, skip, reported, diags
 
 vars == <<prog, fi, ci, ph, skip, reported, diags>>
 
-Ctxs == {"plain", "tofunc", "pmeth", "tometh", "decl"}
-Uses == {"callF", "callM", "callMvar", "callPF", "callPM", "shadow",
+Ctxs == {"plain", "tofunc", "pmeth", "tometh", "decl", "pmethTF"}   \* pmethTF: an ordinary method that is merely named TF, like the @testonly function
+Uses == {"callF", "callM", "callMvar", "callPF", "callPM", "shadow", "callFlit",   \* callFlit: d.TF(d.TT{..}.X) - a @testonly literal inside a @testonly call
          "litTT", "varTT", "varPtrTT", "fieldTT", "paramTT", "resultTT", "litTT2", "litOTT"}
 TypeUses == {"litTT", "varTT", "varPtrTT", "fieldTT", "paramTT", "resultTT", "litTT2", "litOTT"}
+IsTypeUse(u) == u \in TypeUses \/ u = "callFlit"
 
 Anns == [type : BOOLEAN, func : BOOLEAN, meth : BOOLEAN]
 
@@ -49,6 +52,7 @@ Valid(c, pkg) ==
   /\ (c.use = "fieldTT" <=> c.ctx = "decl")
   /\ (c.use \in {"paramTT", "resultTT"} => c.ctx \in {"plain", "tofunc"})
   /\ (c.use = "shadow" => pkg = "d")
+  /\ (c.ctx = "pmethTF" => pkg = "d" /\ c.use \notin {"fieldTT", "paramTT", "resultTT", "shadow"})
   /\ (c.use = "litOTT" => pkg = "u")
 
 \* the defined type a use refers to, as <<package, name>>
@@ -57,31 +61,30 @@ TypeOf(u) == CASE u = "litTT2" -> <<"d", "TT2">> [] u = "litOTT" -> <<"o", "TT">
 InTestCtx(f, c) == f.test \/ c.ctx \in {"tofunc", "tometh"}
 
 \* candidate code of a use, before the once-per-file rule
-Cand(c, ann) ==
-  CASE c.use = "callF" /\ ann.func -> "TONL02"
-    [] c.use \in {"callM", "callMvar"} /\ ann.meth -> "TONL03"
-    [] c.use \in TypeUses /\ (ann.type \/ c.use = "litOTT") -> "TONL01"   \* o.TT is always annotated
-    [] OTHER -> "none"
+Cands(c, ann) ==
+  (IF c.use \in {"callF", "callFlit"} /\ ann.func THEN {"TONL02"} ELSE {})
+  \cup (IF c.use \in {"callM", "callMvar"} /\ ann.meth THEN {"TONL03"} ELSE {})
+  \cup (IF (c.use \in TypeUses \/ c.use = "callFlit") /\ (ann.type \/ c.use = "litOTT") THEN {"TONL01"} ELSE {})   \* o.TT is always annotated
 
 (***************************************************************************)
 (* L1                                                                      *)
 (***************************************************************************)
 Keys(p) == UNION {{<<f, i>> : i \in 1..Len(p.files[f].conts)} : f \in 1..Len(p.files)}
-Reported(p, f, i) ==
+Reported(p, f, i, code) ==
   LET fl == p.files[f]
       c == fl.conts[i]
-      code == Cand(c, p.ann)
-  IN /\ code # "none"
+  IN /\ code \in Cands(c, p.ann)
      /\ ~InTestCtx(fl, c)
      /\ (code = "TONL01" =>
            \A j \in 1..(i - 1) :
-              LET b == fl.conts[j] IN ~(Cand(b, p.ann) = "TONL01" /\ TypeOf(b.use) = TypeOf(c.use) /\ ~InTestCtx(fl, b)))
-L1(p) == {<<k[1], k[2], Cand(p.files[k[1]].conts[k[2]], p.ann)>> : k \in {k \in Keys(p) : Reported(p, k[1], k[2])}}
+              LET b == fl.conts[j] IN ~("TONL01" \in Cands(b, p.ann) /\ TypeOf(b.use) = TypeOf(c.use) /\ ~InTestCtx(fl, b)))
+L1(p) == {<<k[1], k[2], code>> : k \in Keys(p), code \in {"TONL01", "TONL02", "TONL03"}} \cap
+         {x \in (1..2) \X (1..3) \X {"TONL01", "TONL02", "TONL03"} : <<x[1], x[2]>> \in Keys(p) /\ Reported(p, x[1], x[2], x[3])}
 
 (***************************************************************************)
 (* Program spaces                                                          *)
 (***************************************************************************)
-SeqUses == {"litTT", "varTT", "litTT2", "litOTT", "paramTT", "callF", "callMvar"}
+SeqUses == {"litTT", "varTT", "litTT2", "litOTT", "paramTT", "callF", "callMvar", "callFlit"}
 SeqConts(pkg) == {c \in {Cont(x, u) : x \in {"plain", "tofunc"}, u \in SeqUses} : Valid(c, pkg)}
 
 InitProg ==
@@ -132,17 +135,20 @@ EnterDecl ==
 
 Key(u) == IF "DedupByName" \in Deviations THEN TypeOf(u)[2] ELSE TypeOf(u)
 
+\* what one visit adds: TONL02 / TONL03 for every call; TONL01 once per file and type
+VisitCodes(c) ==
+  LET cs == IF c.use = "shadow" /\ "MatchByName" \in Deviations /\ prog.ann.func THEN {"TONL02"}
+            ELSE IF "NoUnalias" \in Deviations /\ c.sp \in {"alias", "alias3", "ptralias"} THEN {}
+            ELSE Cands(c, prog.ann)
+  IN IF "StopAtReportedCall" \in Deviations /\ "TONL02" \in cs THEN {"TONL02"} ELSE cs     \* the arguments of a reported call are not visited
+
 Visit ==
   /\ ph = "visit"
   /\ LET c == CurC
-         code == IF c.use = "shadow" /\ "MatchByName" \in Deviations /\ prog.ann.func THEN "TONL02"
-                 ELSE IF "NoUnalias" \in Deviations /\ c.sp \in {"alias", "alias3", "ptralias"} THEN "none"
-                 ELSE Cand(c, prog.ann)
-     IN IF skip \/ code = "none" THEN UNCHANGED <<reported, diags>>
-        ELSE IF code = "TONL01"
-          THEN IF Key(c.use) \in reported THEN UNCHANGED <<reported, diags>>
-               ELSE reported' = reported \cup {Key(c.use)} /\ diags' = diags \cup {<<fi, ci, code>>}
-        ELSE diags' = diags \cup {<<fi, ci, code>>} /\ UNCHANGED reported
+         cs == IF skip \/ ("SkipMethodNamedLikeFunc" \in Deviations /\ c.ctx = "pmethTF" /\ prog.ann.func) THEN {} ELSE VisitCodes(c)
+         newType == "TONL01" \in cs /\ Key(c.use) \notin reported
+     IN /\ diags' = diags \cup {<<fi, ci, code>> : code \in (cs \ {"TONL01"})} \cup (IF newType THEN {<<fi, ci, "TONL01">>} ELSE {})
+        /\ reported' = IF newType THEN reported \cup {Key(c.use)} ELSE reported
   /\ ph' = "leave"
   /\ UNCHANGED <<prog, fi, ci, skip>>
 
